@@ -55,7 +55,7 @@ def prefix(shape, ops_it, leaf_it):
 def render_requests(ops, rng, thorough):
     """requests to the Lean printer; yields (stream, [request])"""
     n = len(ops)
-    # exhaustive: all trees with <= 2 operators x {minimal, full} parentheses, plain trivia
+    # exhaustive: all trees with <= 2 operators x {minimal, full} parentheses (plain shorthand forms, fixed trivia stream)
     reqs = []
     for k in (1, 2):
         for sh in shapes(k):
